@@ -9,8 +9,8 @@ from .. import docspec, drivers, explore, report
 from . import common
 
 PROP = "C18"
-KQ = ("NL", "J", "CE", "W0", "CO", "BL")
-KT = KQ + ("NLI", "W3", "WT", "CD", "CEE", "IND0")
+KQ = ("NL", "CE", "J", "W0")
+KT = KQ + ("CO", "BL", "NLI", "W3", "WT", "CD", "CEE", "IND0")
 
 
 def nonempty(dMap):
